@@ -1322,7 +1322,16 @@ func (rs *runState) fundpsbt(task, step int, op core.Op) {
 // later fails with "missing transaction for block"); observed, outside the
 // statement, not reported.
 func (x *world) rescanRunning() bool {
-	return x.running && x.client != nil && x.client.RescanActive()
+	if !x.running || x.client == nil {
+		return false
+	}
+	if x.client.RescanActive() {
+		return true
+	}
+	// the backend has finished but the wallet has not processed
+	// RescanFinished yet: from the wallet's side the rescan is still running
+	// (disconnects are ignored, block hashes are still being caught up)
+	return len(x.client.RescanStarts) > 0 && x.w != nil && !x.w.ChainSynced()
 }
 
 // crashsync: everything the node has announced is delivered and processed,
